@@ -37,6 +37,31 @@ def enclosing_loop(node):
     return None
 
 
+def _path_template(fmt, args):
+    """the text a "%s/%s" format yields: literal arguments filled in, every other argument as {its text}; runs of '/' folded"""
+    if fmt is None:
+        return None
+    out, i, k = "", 0, 0
+    while i < len(fmt):
+        ch = fmt[i]
+        if ch != "%":
+            out += ch
+            i += 1
+            continue
+        if i + 1 < len(fmt) and fmt[i + 1] == "%":
+            out += "%"
+            i += 2
+            continue
+        if i + 1 < len(fmt) and fmt[i + 1] == "s" and k < len(args):
+            lit = args[k].string_value()
+            out += lit if lit is not None else "{%s}" % render(args[k])
+            k += 1
+            i += 2
+            continue
+        return None
+    return re.sub(r"/+", "/", out)
+
+
 def l1(prog, ctx):
     f = prog.fn("econf_readConfigWithCallback")
     ctx.touch(f)
@@ -112,6 +137,16 @@ def l1(prog, ctx):
             lits = [x.string_value() for x in args]
             if par and par not in names:
                 bad = (c, "does not use %s" % par)
+            # the path the format produces, with the string-literal arguments filled in and the others as place holders
+            tmpl = _path_template(fmt, args)
+            if lit and tmpl is not None:
+                rootp, projp = "{(*key_file)->root_prefix}", "{project}"
+                want_t = (rootp if rootp in tmpl else "") + lit + ("/" + projp if projp in tmpl else "")
+                others = set(re.findall(r"\{[^}]*\}", tmpl)) - {rootp, projp}
+                if not others:
+                    if tmpl != want_t:
+                        bad = (c, "composes `%s`, not `%s`%s" % (tmpl, want_t, ": directory and prefix run into each other" if tmpl.replace("/", "") == want_t.replace("/", "") else ""))
+                    continue
             if lit and lit not in lits:
                 bad = (c, "does not use %r" % lit)
             if lit and any(l in ("/run", "/etc", "/usr", "/usr/etc") and l != lit for l in lits if l):
@@ -1043,7 +1078,50 @@ def l2_live_object(prog, ctx):
     n = own_rules.report(ctx, "L2", "%s: every round of the main-file scan has an object to read into" % HIST, a, only_kinds=("null-object",))
 
 
+def l20_absent_dropin_dir(prog, ctx, rule="L20"):
+    """L20: a layer that has no drop-in directory contributes nothing and does not end the read: when scandir() fails because the
+    directory (or a component of its path) is not there - errno ENOENT or ENOTDIR - the scan of that directory answers ECONF_SUCCESS,
+    so that the remaining layers are still read and a configuration found nowhere is reported as ECONF_NOFILE."""
+    import errno as _errno
+    f = prog.fn("check_conf_dir")
+    ctx.touch(f)
+    cfg = f.cfg
+    sc = f.calls("scandir")
+    if len(sc) != 1:
+        raise Inconclusive("check_conf_dir: scandir call not found")
+    up = sc[0].up()
+    var = up.j["decls"][0]["name"] if up is not None and up.k == "DeclStmt" else (render(up.children[0]) if up is not None and up.k == "BinaryOperator" else None)
+    if var is None:
+        raise Inconclusive("check_conf_dir: result of scandir() not bound to a variable")
+    ok_all, seen = True, 0
+    for code, name in ((_errno.ENOENT, "ENOENT"), (_errno.ENOTDIR, "ENOTDIR")):
+        pos = cfg.index_of(up)
+        vals = set()
+
+        def accept(b, fd):
+            for n9 in cfg.blocks[b].elems:
+                if n9.k == "ReturnStmt" and not n9.j.get("inlined_return") and n9.children:
+                    cv = n9.children[0].const_value()
+                    vals.add(cv if cv is not None else fd.get("=" + render(n9.children[0])))
+            return False
+        cfg.feasible_reach(None, lambda lit, b, i: False, lambda a: True, start=pos[0], start_index=pos[1] + 1, accept=accept,
+                           init_facts={"=" + var: -1, var: True, "=*__errno_location()": code, "*__errno_location()": True})
+        seen += 1
+        if vals == {0}:
+            ctx.ok(rule, "a missing drop-in directory (%s) is passed over" % name, sc[0].where, "scandir() < 0 with errno %s: check_conf_dir returns ECONF_SUCCESS" % name)
+        elif None in vals and len(vals) > 1 or vals == {None}:
+            ctx.inconclusive(rule, "a missing drop-in directory (%s) is passed over" % name, sc[0].where, "return values %s" % sorted(str(v) for v in vals))
+        else:
+            ok_all = False
+            ctx.fail(rule, "a missing drop-in directory (%s) is passed over" % name, sc[0].where,
+                     "when scandir() fails with errno %s (%s) check_conf_dir returns %s: the layered read stops there - the layers behind it are not read and a "
+                     "configuration that exists nowhere is no longer ECONF_NOFILE" % (
+                         name, "a component of the path is a regular file, e.g. /run/<project> being a pid file" if name == "ENOTDIR" else "no such directory",
+                         sorted(str(v) for v in vals)), key="absent-dir:%s" % name)
+
+
 def run(prog, ctx):
+    l20_absent_dropin_dir(prog, ctx)
     l2_live_object(prog, ctx)
     l18_l19(prog, ctx)
     l1(prog, ctx)
